@@ -698,10 +698,8 @@ def gen_fn(repo, d, body, report):
             k = int(sub["args"][0])
             hdr = sub["args"][1]
             cls = find_closures(src, f["body_open"] + 1, f["body_close"])
-            if k >= len(cls):
-                raise LostAnchor(f"{d['file']}::{d['name']}: closure ordinal {k} not found")
-            (p0, p1, b0, b1) = cls[k]
             o = kv(sub["args"][2:])
+            (p0, p1, b0, b1) = select_closure(src, cls, k, o.get("of"), f"{d['file']}::{d['name']}")
             bind = ""
             if o.get("bind"):
                 # R7b: tuple pattern parameter -> typed variable + destructuring let (same semantics)
@@ -800,6 +798,32 @@ def find_closures(src, lo, hi):
             continue
         i += 1
     return out
+
+
+def select_closure(src, cls, k, of, what):
+    """k-th closure; with `of=<name>` the k-th closure that is an argument of a call of `<name>(` - closures added elsewhere
+    (a new `.filter(|x| ..)` in front) then do not shift the ordinal"""
+    toks = src.toks
+    if of:
+        sel = []
+        for c in cls:
+            j = c[0] - 1
+            # walk back over earlier arguments to the opening `(` of the call
+            d = 0
+            while j >= 0:
+                if toks[j].text in ")]}":
+                    d += 1
+                elif toks[j].text in "([{":
+                    if d == 0:
+                        break
+                    d -= 1
+                j -= 1
+            if j >= 1 and toks[j].text == "(" and toks[j - 1].text == of:
+                sel.append(c)
+        cls = sel
+    if k >= len(cls):
+        raise LostAnchor(f"{what}: closure ordinal {k}{' of ' + of if of else ''} not found")
+    return cls[k]
 
 
 def gen_type(repo, d, body, report):
@@ -921,7 +945,10 @@ def gen_fragment(repo, d, body, report):
     else:
         f = src.find_fn(d["fn"])
     toks = src.toks
-    a0, _ = src.find_seq(f["body_open"] + 1, f["body_close"], d["from"], int(d.get("from_nth", 1)))
+    if d["from"] == "@start":
+        a0 = f["body_open"] + 1          # structural anchor: the first statement of the function body
+    else:
+        a0, _ = src.find_seq(f["body_open"] + 1, f["body_close"], d["from"], int(d.get("from_nth", 1)))
     _, b1 = src.find_seq(a0, f["body_close"], d["to"], int(d.get("to_nth", 1)))
     spec, subs = parse_block(body)
     edits = Edits()
@@ -969,10 +996,8 @@ def gen_fragment(repo, d, body, report):
             k = int(sub["args"][0])
             hdr = sub["args"][1]
             cls = find_closures(src, a0, b1 + 1)
-            if k >= len(cls):
-                raise LostAnchor(f"fragment {d['name']}: closure ordinal {k} not found")
-            (p0, p1, c0, c1) = cls[k]
             o = kv(sub["args"][2:])
+            (p0, p1, c0, c1) = select_closure(src, cls, k, o.get("of"), f"fragment {d['name']}")
             bind = f"let {o['bind']} = __p; " if o.get("bind") else ""
             edits.add(toks[p0].start, toks[p1].end, hdr + "\n" + text + "\n{ " + bind, "R7", "closure header")
             edits.add(toks[c1].end, toks[c1].end, " }", "R7", "")
